@@ -97,4 +97,15 @@ static void bytevec_copy(const struct bytevec *v, byte *dst)    /* std::copy(v.b
   for (i = 0; i < SECTOR_BYTES; ++i)
     if (i < v->n) dst[i] = v->d[i];
 }
+
+/* std::all_of(first, first+n, [](byte b){ return b == v; }) over a fixed byte range (rule in props/dfs_specs.py) */
+static _Bool g_allof_result;
+static bool bytes_all_equal(const byte *p, unsigned n, byte v)
+{
+  _Bool all;
+  __CPROVER_assert(n == 8, "model: bytes_all_equal over exactly 8 bytes");
+  all = p[0] == v && p[1] == v && p[2] == v && p[3] == v && p[4] == v && p[5] == v && p[6] == v && p[7] == v;
+  g_allof_result = all;
+  return all;
+}
 #endif
